@@ -193,6 +193,10 @@ func (p *PsUnpacker) FeedRtpBody(rtpBody []byte, rtpts uint32) error {
 	for p.buf.Len() != 0 {
 		rb := p.buf.Bytes()
 		i := 0
+		if len(rb) < 4 {
+			// 起始码不完整，等待下一个rtp包
+			return nil
+		}
 		code := bele.BeUint32(rb[i:])
 		i += 4
 
@@ -344,6 +348,10 @@ func (p *PsUnpacker) parsePsm(rb []byte, index int) int {
 func (p *PsUnpacker) parseAvStream(code int, rtpts uint32, rb []byte, index int) int {
 	i := index
 
+	if len(rb)-i < 2 {
+		return -1
+	}
+
 	// 注意，由于length是两字节，所以存在一个帧分成多个pes包的情况
 	length := int(bele.BeUint16(rb[i:]))
 	if length == 65535 {
@@ -357,18 +365,37 @@ func (p *PsUnpacker) parseAvStream(code int, rtpts uint32, rb []byte, index int)
 		return -1
 	}
 
+	// pes包比固定头部还短，或者头部的长度字段超出了pes包：数据无效，跳过这个pes包
+	if length < 3 {
+		nazalog.Warnf("invalid pes packet. length=%d", length)
+		return 2 + length
+	}
+
 	ptsDtsFlag := rb[i+1] >> 6
 	phdl := int(rb[i+2]) // pes header data length
 	i += 3
+
+	if 3+phdl > length {
+		nazalog.Warnf("invalid pes packet. length=%d, phdl=%d", length, phdl)
+		return 2 + length
+	}
 
 	var pts int64 = -1
 	var dts int64 = -1
 	j := 0
 	if ptsDtsFlag&0x2 != 0 {
+		if phdl < 5 {
+			nazalog.Warnf("invalid pes packet. ptsDtsFlag=%d, phdl=%d", ptsDtsFlag, phdl)
+			return 2 + length
+		}
 		_, pts = readPts(rb[i:])
 		j += 5
 	}
 	if ptsDtsFlag&0x1 != 0 {
+		if phdl < j+5 {
+			nazalog.Warnf("invalid pes packet. ptsDtsFlag=%d, phdl=%d", ptsDtsFlag, phdl)
+			return 2 + length
+		}
 		_, dts = readPts(rb[i+j:])
 	} else {
 		dts = pts
@@ -554,7 +581,13 @@ func (p *PsUnpacker) onAvPacketWrap(packet *base.AvPacket) {
 	p.onAvPacketWrapCount++
 	//nazalog.Debugf("PsUnpacker > onAvPacketWrap. packet=%s", packet.DebugString())
 	if packet.IsVideo() {
-		typ := h2645.ParseNaluType(packet.PayloadType == base.AvPacketPtAvc, packet.Payload[4])
+		// Payload是AnnexB格式，start code可能是3或者4字节，nal头在start code之后
+		_, leading := h2645.IterateNaluStartCode(packet.Payload, 0)
+		if leading < 0 || len(packet.Payload) <= leading {
+			// 只有start code，没有nal数据
+			return
+		}
+		typ := h2645.ParseNaluType(packet.PayloadType == base.AvPacketPtAvc, packet.Payload[leading])
 		//nazalog.Debugf("PsUnpacker onAvPacketWrap. type=%d", typ)
 		// TODO(chef): [opt] 等待sps等信息再开始回调，这个逻辑不完整简化了 202209
 		if p.waitSpsFlag {
